@@ -395,6 +395,16 @@ static int resp(unsigned long seedv, const char * tier, const char * outpath) {
 #if USE_DEVICE_DEPENDENT_ERROR_INFORMATION && !USE_MEMORY_ALLOCATION_FREE
     for (len = 1; len <= 40; len++) { memset(text, 'a' + (len % 20), len); if (len > 3) text[2] = '"'; resp_case_exact(f, -113, text, len); n++; }
 #endif
+    /* texts much longer than the limit, with their length given explicitly (and a quote near the cut) */
+    {
+        static const size_t longs[] = {255, 256, 257, 300, 400, 511, 512, 513, 590};
+        for (c = 0; c < 2; c++) for (q = 0; q < 9; q++) {
+            memset(text, 'k' + c, longs[q]);
+            resp_case(f, codes[c], 1, text, longs[q]); n++;
+            text[230] = '"';
+            resp_case(f, codes[c], 1, text, longs[q]); n++;
+        }
+    }
     /* every length around the boundary, quotes at every position relative to it */
     for (c = 0; c < (thorough ? 13 : 4); c++) {
         size_t dl = strlen(SCPI_ErrorTranslate((int16_t) codes[c]));
